@@ -4,10 +4,11 @@ CONSTANTS
   UploadIds = {1, 2, 3}
   PerUser = 2
   MaxSlots = 2
-  InitSlots = {1, 2}
+  InitSlots = {0, 1}
+  InitTruth = {"unknown"}
   AnyInitAttr = FALSE
   Statuses = {"unknown", "offline", "away", "online"}
-  SlotBudget = 0
+  SlotBudget = 1
   AttrBudget = 2
   LifeBudget = 1
   TrackMgmt = TRUE
@@ -19,7 +20,10 @@ CONSTANTS
   WFriend = 0
   WPriv = 100
   StateChangeNotifies = TRUE
-  SlotsChangeNotifies = FALSE
+  SlotsChangeNotifies = TRUE
+  TaskEndNotifies = FALSE
+  RequeueTail = FALSE
+  TrackPerUser = TRUE
 INVARIANT TypeOK
 INVARIANT OnePerUser
 INVARIANT FlagsIffQueued
@@ -27,6 +31,8 @@ INVARIANT WakeIffRunnable
 INVARIANT NoDoubleTask
 INVARIANT TaskOnlyQueued
 INVARIANT OneTaskPerUser
+INVARIANT KnowledgeKept
+INVARIANT NoTaskWhileInFlight
 PROPERTY StartRespectsLimit
 PROPERTY NeverOffline
 PROPERTY PriorityHolds
